@@ -221,6 +221,10 @@ class Interp:
             return {} if v == self.consts[path] else None
         if v is OPAQUE:
             raise Unknown("pattern %s against opaque value" % path)
+        if path.split("::")[-2:-1] == ["Cow"] and last in ("Borrowed", "Owned") and sub and len(sub) == 1 \
+                and not (isinstance(v, tuple) and v[:1] == ("enum",) and "Cow" in v[1]):
+            # strings are modelled without the Cow wrapper: Borrowed / Owned is not observable, the payload is
+            return self.match(v, sub[0])
         if last in ("Some", "None") and isinstance(v, tuple) and v[0] in ("Some", "None"):
             if v[0] != last:
                 return None
@@ -736,6 +740,12 @@ class Interp:
                     if m == "min_by" and o[1] > 0:
                         best = x
                 return ("Some", best)
+            if m in ("rposition", "rfind") and recv_list is not None:
+                lst = list(recv_list)
+                for idx in range(len(lst) - 1, -1, -1):
+                    if self.truth(self.call_closure(cl, [lst[idx]])):
+                        return ("Some", idx if m == "rposition" else lst[idx])
+                return ("None",)
             if m in ("position", "any", "all", "find", "find_map", "filter", "map", "retain", "filter_map", "for_each", "flat_map", "take_while", "skip_while", "max_by_key", "min_by_key"):
                 res = []
                 for idx, x in enumerate(list(recv_list)):
@@ -753,10 +763,14 @@ class Interp:
                     return ("Some", best[1])
                 if m == "take_while":
                     out = []
+                    consumed = 0
                     for idx, x, r in res:
+                        consumed += 1
                         if not self.truth(r):
                             break
                         out.append(x)
+                    if isinstance(recv, PyIter):
+                        del recv[:consumed]        # a consuming iterator also loses the first rejected element
                     return ("list", out)
                 if m == "skip_while":
                     out, skipping = [], True
@@ -803,6 +817,8 @@ class Interp:
         if recv_list is not None:
             if m in ("iter", "iter_mut", "into_iter", "cloned", "copied", "by_ref", "as_slice"):
                 return recv
+            if m == "clone" and isinstance(recv, PyIter):
+                return PyIter(list(recv))
             if m == "enumerate":
                 return ("list", [("tuple", [i, x]) for i, x in enumerate(recv_list)])
             if m == "rev":
@@ -827,7 +843,10 @@ class Interp:
             if m == "skip" and args and isinstance(args[0], int):
                 return ("list", list(recv_list)[args[0]:])
             if m == "take" and args and isinstance(args[0], int):
-                return ("list", list(recv_list)[:args[0]])
+                out = list(recv_list)[:args[0]]
+                if isinstance(recv, PyIter):
+                    del recv[:args[0]]
+                return ("list", out)
         if isinstance(recv, MutList):
             if m == "remove" and args and isinstance(args[0], int):
                 if not (0 <= args[0] < len(recv)):
